@@ -3,9 +3,11 @@ package main
 import (
 	"fmt"
 	"math/rand"
+	"os"
 	"sort"
 	"strings"
 	"sync"
+	"time"
 
 	"github.com/mattn/anko/env"
 )
@@ -44,8 +46,40 @@ func (c cop) apply(e *env.Env) string {
 		return strings.Join(s, ",")
 	case "copy":
 		return snapshot(e.Copy())
+	case "deftype":
+		return fmt.Sprint(e.DefineType("T"+c.name, typeVals[int(c.val)%len(typeVals)]))
+	case "type":
+		t, err := e.Type("T" + c.name)
+		return fmt.Sprint(t, err)
+	case "types":
+		s := e.GetTypeSymbols()
+		sort.Strings(s)
+		return strings.Join(s, ",")
+	case "string":
+		// the listing order is unspecified: compare the sorted lines
+		ls := strings.Split(e.String(), "\n")
+		sort.Strings(ls)
+		return strings.Join(ls, "|")
 	}
 	return "?"
+}
+
+var typeVals = []interface{}{int64(0), "", 1.5, true}
+
+// waitOrDeadlock waits for wg; when the goroutines have not finished after the deadline (every
+// operation here takes microseconds) it records a deadlock, writes the summary and ends the
+// process: the stuck goroutines cannot be recovered.
+func waitOrDeadlock(o *Out, wg *sync.WaitGroup, desc string) {
+	done := make(chan struct{})
+	go func() { wg.Wait(); close(done) }()
+	select {
+	case <-done:
+	case <-time.After(20 * time.Second):
+		o.Fail(Failure{Oracle: "no-deadlock", Key: "env-deadlock", Input: desc,
+			Detail: "goroutines using one scope did not finish within 20s: the scope's lock is wedged (no one-at-a-time order blocks)"})
+		o.Close()
+		os.Exit(0)
+	}
 }
 
 func snapshot(e *env.Env) string {
@@ -55,6 +89,12 @@ func snapshot(e *env.Env) string {
 	for i, k := range s {
 		v, _ := e.Get(k)
 		out[i] = fmt.Sprintf("%s=%v", k, v)
+	}
+	ts := e.GetTypeSymbols()
+	sort.Strings(ts)
+	for _, k := range ts {
+		t, _ := e.Type(k)
+		out = append(out, fmt.Sprintf("%s:%v", k, t))
 	}
 	return "{" + strings.Join(out, " ") + "}"
 }
@@ -106,7 +146,7 @@ func streamEnvConc(o *Out, r *rand.Rand, n int, thorough bool) {
 		"released together and repeated; each observed outcome (every return value + final state) must be produced by some one-at-a-time order that respects each goroutine's own " +
 		"order (all merges enumerated on fresh environments); plus an unchecked-result stress for the race detector; non-trivial = all; distinct by operation lists"
 	names := []string{"a", "b", "p"}
-	kinds := []string{"define", "define", "set", "get", "get", "delete", "copy", "symbols", "delglobal", "defglobal"}
+	kinds := []string{"define", "define", "set", "get", "get", "delete", "copy", "symbols", "delglobal", "defglobal", "deftype", "deftype", "type", "types", "string"}
 	reps := 40
 	if thorough {
 		reps = 200
@@ -160,7 +200,7 @@ func streamEnvConc(o *Out, r *rand.Rand, n int, thorough bool) {
 				}(t)
 			}
 			close(start)
-			wg.Wait()
+			waitOrDeadlock(o, &wg, desc)
 			got := fmt.Sprint(res, snapshot(shared), snapshot(parent))
 			if !allowed[got] {
 				o.Fail(Failure{Oracle: "sequentially-consistent", Key: "env-not-linearizable", Input: desc,
@@ -169,6 +209,38 @@ func streamEnvConc(o *Out, r *rand.Rand, n int, thorough bool) {
 			}
 		}
 	}
+	// first definitions on a fresh scope: several goroutines each make the scope's first type / value definitions
+	// together; afterwards every definition must be there (each call returned nil)
+	firsts := 3000
+	if thorough {
+		firsts = 30000
+	}
+	for round := 0; round < firsts; round++ {
+		_, shared := freshShared()
+		var wg sync.WaitGroup
+		start := make(chan struct{})
+		const G = 4
+		for g := 0; g < G; g++ {
+			wg.Add(1)
+			go func(g int) {
+				defer wg.Done()
+				<-start
+				_ = shared.DefineType(fmt.Sprintf("T%d", g), int64(0))
+				_ = shared.Define(fmt.Sprintf("v%d", g), int64(g))
+			}(g)
+		}
+		close(start)
+		waitOrDeadlock(o, &wg, "4 goroutines: first DefineType + Define on a fresh scope")
+		o.Sum.Hist["first-definitions"]++
+		if ts, vs := shared.GetTypeSymbols(), shared.GetValueSymbols(); len(ts) != G || len(vs) != G+1 {
+			sort.Strings(ts)
+			sort.Strings(vs)
+			o.Fail(Failure{Oracle: "sequentially-consistent", Key: "env-lost-definition", Input: "4 goroutines: DefineType(T_g), Define(v_g) on a fresh child scope holding a",
+				Detail: fmt.Sprintf("all calls returned, but the scope holds types %v and values %v", ts, vs)})
+			break
+		}
+	}
+	o.Sum.Evaluations += firsts
 	// snapshot consistency: one writer runs a known sequence (value v_i, then type t_i, for i = 0..K-1) while
 	// readers copy the scope; every copy must be one of the K*2+1 states the scope passed through:
 	// values {v_0..v_a-1}, types {t_0..t_b-1} with b <= a <= b+1
@@ -236,7 +308,7 @@ func streamEnvConc(o *Out, r *rand.Rand, n int, thorough bool) {
 			_ = shared.DefineType(fmt.Sprintf("t%d", i), int64(0))
 		}
 		close(done)
-		wg.Wait()
+		waitOrDeadlock(o, &wg, "writer: Define/DefineType; readers: Copy / DeepCopy")
 		o.Sum.Evaluations += copies
 		o.Sum.Hist["snapshot-copies"] += copies
 		if torn != "" {
@@ -267,6 +339,6 @@ func streamEnvConc(o *Out, r *rand.Rand, n int, thorough bool) {
 			}
 		}(g)
 	}
-	wg.Wait()
+	waitOrDeadlock(o, &wg, "8 goroutines x 400 random operations incl. String, DefineType, Type, DeepCopy on one scope")
 	o.Sum.Evaluations++
 }
